@@ -3,7 +3,9 @@ C11 — model of the InfluxQL node lifecycle: `influxql.go` (InfluxQLNode, influ
 influxqlStreamingTransformGroup, getCreateFn) and the kapacitor-side halves of `influxql.gen.go`
 (convertXPoint, EmitPoint, EmitBatch — in Kap/Model/C11Defs.lean).
 
-Transcribed, branch for branch:
+Transcription of snapshot ef0888e + the four `fix:` commits recorded in findings/C11.txt (d326602, cce1e44,
+2f9187b, 70edbcf); the behaviour before each fix is kept behind a `Quirks` switch for the counterexample
+theorems. Transcribed, branch for branch:
 * `getCreateFn`: node-wide cache `currentKind` / `createFn`, shared by ALL groups of the node;
 * `influxqlGroup.BeginBatch / BatchPoint / EndBatch`: reset of `rc`, `batchSize`, `bc.time`; realisation of the
   reduce context from the kind of the first point's field; a failed realisation ignores the point WITHOUT
